@@ -5,3 +5,4 @@ import Tramp.Model.Node
 import Tramp.Model.Provider
 import Tramp.Model.Config
 import Tramp.Model.Spec
+import Tramp.Model.Height
